@@ -11,7 +11,7 @@ import (
 	"verifharness/vf"
 )
 
-var profile = crasheng.Profile{AbortPct: 15, MaxTxns: 8, Checkpoint: 12, Reopen: 10, Bulk: 4, OpenMid: 8, PostCrash: 20, Huge: 2}
+var profile = crasheng.Profile{AbortPct: 15, MaxTxns: 8, Checkpoint: 12, Reopen: 10, Bulk: 4, OpenMid: 8, PostCrash: 20, Huge: 2, Churn: 4}
 
 const rule = "Case = generated history (tables t(id,v,n) with skip-list indexes on id,n and optionally s(id,n) without indexes; 0-30 committed setup inserts; 1-8 sequential transactions of 1-4 statements: inserts of 8-1200 byte rows, in-place updates, growing/shrinking updates that relocate, single and multi-row deletes; commit / explicit abort; forced checkpoints; crash and clean restarts inside the history (their recovery I/O is part of the trace); pool of 12-100 frames) x crash point (every prefix of the recorded WritePage/WriteLog/GCLogFile trace when <= 60, else all marker-adjacent prefixes plus an even sample; optionally the last write torn). Oracle per crash point: restart returns; every table equals state(D) or state(D+U) (D = transactions whose commit returned before the crash, U = commit in progress); the recovered database accepts insert/update/index read/scan read/delete (and a growth phase) with model-equal results. Only failures classified as lost committed effects / failed restart / refused statements count for C01; loser-visible failures are counted under C02's check. Non-trivial = a crash point with at least one committed writer before it."
 
